@@ -46,6 +46,9 @@ CHECKS = {
  "C20": ("exploration", "exhaustive bounded enumeration of the four ordinals flow pairs over keys, prices, funding sets placed around the price/fee thresholds and quotes, each completed transaction checked by the interpreter, a FIFO satoshi-flow reference and the reference fee model; inscription round trips over boundary lengths",
          "Every scenario of the product space is driven through the real listing/bidding/acceptance functions (the partially signed tx crosses a serialisation boundary); every completed transaction has all inputs executed by the interpreter, the seller output position/bytes, FIFO ordinal routing and the fee checked.",
          "Interpreter verdicts come from the library itself (its agreement with the reference is C05/C06's concern); FIFO model and fee model are the framework's. Known finding: empty content type / payload do not round-trip through ParseInscription.", "DESIGN.md §4 C20"),
+ "C05": ("model_checking", "explicit-state exploration of the real interpreter in lockstep with a reference model of the BSV script rules anchored on all 1438 node vectors: operand grid over every opcode, all short byte strings as scripts, breadth-first program search with canonical-state deduplication, limit/P2SH templates",
+         "Every execution of the bounded spaces runs on the real Engine.Execute with a recording debugger; after every instruction the snapshot of both stacks is compared with the reference machine and the final verdicts are compared. The reference must reproduce the verdict and error name of every vector in script_tests.json before it may judge. States (distinct snapshots), transitions (instructions compared) and traces (executions) are counted by the run.",
+         "Reference internal/ref/scriptref is written from the node's interpreter semantics as the author knows them and certified only on the shipped vectors; scripts reaching a signature opcode are judged by C06; elements above 70,000 bytes are not materialised.", "DESIGN.md §4 C05"),
 }
 
 PENDING_REASON = "check not built yet in this round (planned, see DESIGN.md §4); not claimed until its exhaustive check exists and is quiet on the unchanged tree"
